@@ -293,3 +293,13 @@ EXTRA_LEAN_TARGETS = EXTRA_LEAN_TARGETS + [NESTED_TARGET]
 NESTED_THEOREMS = NESTED_THEOREMS + ["OdxVerif.Codec." + t for t in [
     "C08_static_length_bytesize", "C08_dynamic_kinds_none", "C08_required_iff_not_omittable2", "C08_required_nested2",
     "C08_required_nested_depth2", "C08_not_required_nested2", "DDesc.structBS_cursor", "DDesc.structBS_okW", "DescribedP2.fill_none"]]
+
+
+# --- W24 (compu-method / DTC leaves: DescribedP3, StaticP3): OdxVerif.Props.C08Nested3 imports Props.C08Nested2, so it takes its place as
+# the separately built + audited module (audit_nested builds it, which builds C08Nested and C08Nested2, and prints the axioms of all).
+NESTED_TARGET = "OdxVerif.Props.C08Nested3"
+EXTRA_LEAN_TARGETS = EXTRA_LEAN_TARGETS + [NESTED_TARGET]
+NESTED_THEOREMS = NESTED_THEOREMS + ["OdxVerif.Codec." + t for t in [
+    "C08_static_length_nested3_partial", "C08_compu_leaf_static_length", "C08_dtc_no_static_length", "C08_required_iff_not_omittable3",
+    "C08_conv_leaf_required", "C08_required_nested3", "C08_not_required_nested3", "static_length_nested3", "StaticP3.sound",
+    "PDesc.ofConv_static", "DescribedP3.fill_none", "CompuShape.static", "tDesc_static"]]
